@@ -24,7 +24,7 @@ if [ $applies = 1 ]; then
   cargo test --offline --test seeded_demo >>"$LOG" 2>&1; demo_rc=$?
   rm -f tests/seeded_demo.rs
   echo "== existing suite with the change" >>"$LOG"
-  cargo nextest run --workspace --no-fail-fast --test-threads 8 --offline -E 'not test(test_full_split_execution)' >"$D/suite.log" 2>&1; suite_rc=$?
+  cargo nextest run --workspace --no-fail-fast --retries 2 --test-threads 8 --offline -E 'not test(test_full_split_execution)' >"$D/suite.log" 2>&1; suite_rc=$?
   summary=$(grep -E "^\s+Summary" "$D/suite.log" | tail -1)
   grep -E "^\s+(FAIL|TIMEOUT|SIGABRT|SIGSEGV)" "$D/suite.log" | sort -u | head -20 >>"$LOG"
   echo "$summary" >>"$LOG"
